@@ -40,7 +40,7 @@ func (p *pktEnd) Read(b []byte) (int, error) {
 			p.rest = pk
 		case <-p.closed:
 			return 0, io.EOF
-		case <-time.After(10 * time.Second):
+		case <-time.After(20 * time.Second):
 			return 0, errors.New("harness: read timeout")
 		}
 	}
@@ -99,7 +99,7 @@ func newLink(kind string, spec regMapSpec, id byte) *c19Link {
 	} else {
 		c, s := net.Pipe()
 		l.tcpC = c
-		ct, st = modbus.NewTCP(c, 10*time.Second, modbus.TransportClient), modbus.NewTCP(s, time.Hour, modbus.TransportServer)
+		ct, st = modbus.NewTCP(c, 20*time.Second, modbus.TransportClient), modbus.NewTCP(s, time.Hour, modbus.TransportServer)
 	}
 	l.client = modbus.NewClient(ct, 0)
 	l.server = modbus.NewServer(id, st, l.regs, 0)
